@@ -277,6 +277,18 @@ theorem float_op_same (dbg : Bool) (op : BinOp) :
 example (a b : BitVec 32) : floatSpec32 .Sub a b = some (CVal.f32 (F.sub32 a b))
     ∧ floatSpec32 .Gt a b = some (CVal.ofBool (F.lt32 b a)) := ⟨rfl, rfl⟩
 
+/-- `float_neg_same`: unary `-` on `f32` / `f64` — the generated `Negate` arm of the code
+    generator (`fneg`) applies `FloatOps.neg` to the operand, for every instance of `FloatOps`
+    (for IEEE-754: it flips the sign bit, also of a zero and of a NaN; it is not `0.0 - x`). -/
+theorem float_neg_same (dbg : Bool) :
+    (∀ a : BitVec 32, cg_Negate dbg (CVal.f32 a) = .ok (CVal.f32 (F.neg32 a)))
+    ∧ (∀ a : BitVec 64, cg_Negate dbg (CVal.f64 a) = .ok (CVal.f64 (F.neg64 a))) :=
+  ⟨cg_Negate_f32 dbg, cg_Negate_f64 dbg⟩
+
+/-- non-vacuity: the statement is about a successful code-generation arm (no `Res.panic`). -/
+example (dbg : Bool) (a : BitVec 64) : ∃ v, cg_Negate dbg (CVal.f64 a) = .ok v :=
+  ⟨_, (float_neg_same dbg).2 a⟩
+
 end
 
 end RotoV.C01
